@@ -329,6 +329,20 @@ func sameValue(a, b ssa.Value) bool {
 	if a == b {
 		return true
 	}
+	// the same pure arithmetic written twice (s+1 in the test and again in the assignment)
+	if ba, ok := a.(*ssa.BinOp); ok {
+		if bb, ok := b.(*ssa.BinOp); ok && ba.Op == bb.Op {
+			switch ba.Op {
+			case token.ADD, token.SUB, token.MUL:
+				if sameOperand(ba.X, bb.X) && sameOperand(ba.Y, bb.Y) {
+					return true
+				}
+				if ba.Op != token.SUB && sameOperand(ba.X, bb.Y) && sameOperand(ba.Y, bb.X) {
+					return true
+				}
+			}
+		}
+	}
 	// loads of the same local cell (named results / captured variables)
 	la, oka := a.(*ssa.UnOp)
 	lb, okb := b.(*ssa.UnOp)
@@ -664,4 +678,15 @@ func resolveLoad(v ssa.Value) ssa.Value {
 		v = stripConv(st.Val)
 	}
 	return v
+}
+
+// sameOperand: identical SSA value, equal constants, or (recursively) the same pure arithmetic.
+func sameOperand(a, b ssa.Value) bool {
+	if ka, ok := a.(*ssa.Const); ok {
+		if kb, ok := b.(*ssa.Const); ok {
+			return ka.Value != nil && kb.Value != nil && ka.Value.ExactString() == kb.Value.ExactString() && types.Identical(ka.Type(), kb.Type())
+		}
+		return false
+	}
+	return sameValue(a, b)
 }
